@@ -179,6 +179,14 @@ class Body:
         full = [x for x in ds if x[2] in ('assign', 'call')]
         if len(full) == 1 and len(ds) == 1:
             return full[0]
+        if len(full) == 1 and self.locals[l]['ty'].startswith(('&', '*')):
+            # writes *through* a reference / pointer local change the pointee, not the local: it still has its single definition
+            def through_deref(x):
+                node = x[3]
+                pl = node.get('pl') if x[1] >= 0 else node.get('dest')
+                return bool(pl and pl.get('p') and pl['p'][0].get('p') == 'deref')
+            if all(through_deref(x) for x in ds if x[2] == 'partial'):
+                return full[0]
         return None
 
     def local_name(self, l):
